@@ -123,10 +123,25 @@ package ring
 //@   loop 5 invariant same($coll, newTokenLists) && !isnil(normalizedIngesters)
 //@   loop 5 invariant forall n string :: (in(n, normalizedIngesters) <==> in(n, m0)) && (in(n, m0) ==> fieldsEq(normalizedIngesters[n], m0[n]))
 //@   loop 5 invariant forall n string :: in(n, m0) ==> ($visited[n] ? same(normalizedIngesters[n].Tokens, newTokenLists[n]) : same(normalizedIngesters[n], m0[n]))
+//@ # the pre-check that lets a merge skip conflict resolution: "no conflict" is only reported when no token occurs twice
+//@ # (in two entries, or twice in one). The scratch map comes from a pool whose maps are emptied before they are put back
+//@ # (the deferred function above does it): assumed at the point of use, and listed.
 //@ func conflictingTokensExist
 //@   property C05
 //@   nowrite normalizedIngesters
 //@   modifies nothing
+//@   ghost var whoK total[uint32]string = havoc
+//@   ghost var whoI total[uint32]int = havoc
+//@   loop 0 init assume !isnil(tokensMap) && (forall t int :: !in(t, tokensMap))
+//@   ensures  none: !result ==> (forall a, b string, i, j int :: in(a, normalizedIngesters) && in(b, normalizedIngesters) && 0 <= i && i < len(normalizedIngesters[a].Tokens) && 0 <= j && j < len(normalizedIngesters[b].Tokens) && (a != b || i != j) ==> normalizedIngesters[a].Tokens[i] != normalizedIngesters[b].Tokens[j])
+//@   loop 0 invariant !isnil(tokensMap) && same($coll, normalizedIngesters)
+//@   loop 0 invariant by: forall t int :: in(t, tokensMap) ==> $visited[whoK[t]] && in(whoK[t], normalizedIngesters) && 0 <= whoI[t] && whoI[t] < len(normalizedIngesters[whoK[t]].Tokens) && normalizedIngesters[whoK[t]].Tokens[whoI[t]] == t
+//@   loop 0 invariant seen: forall k string, i int :: $visited[k] && in(k, normalizedIngesters) && 0 <= i && i < len(normalizedIngesters[k].Tokens) ==> in(normalizedIngesters[k].Tokens[i], tokensMap) && whoK[normalizedIngesters[k].Tokens[i]] == k && whoI[normalizedIngesters[k].Tokens[i]] == i
+//@   loop 1 end whoK := store(whoK, t, $k0)
+//@   loop 1 end whoI := store(whoI, t, $i - 1)
+//@   loop 1 invariant !isnil(tokensMap) && same($coll0, normalizedIngesters) && in($k0, normalizedIngesters) && same(ing, normalizedIngesters[$k0]) && $visited0[$k0]
+//@   loop 1 invariant by: forall t int :: in(t, tokensMap) ==> $visited0[whoK[t]] && in(whoK[t], normalizedIngesters) && 0 <= whoI[t] && whoI[t] < len(normalizedIngesters[whoK[t]].Tokens) && normalizedIngesters[whoK[t]].Tokens[whoI[t]] == t && (whoK[t] == $k0 ==> whoI[t] < $i)
+//@   loop 1 invariant seen: forall k string, i int :: $visited0[k] && in(k, normalizedIngesters) && 0 <= i && i < len(normalizedIngesters[k].Tokens) && (k != $k0 || i < $i) ==> in(normalizedIngesters[k].Tokens[i], tokensMap) && whoK[normalizedIngesters[k].Tokens[i]] == k && whoI[normalizedIngesters[k].Tokens[i]] == i
 //@
 //@ func NewDesc
 //@   property C03
